@@ -355,16 +355,6 @@ def known(case, impl, clause):
         return None
     d = parse(case)
     g = target_of(d)
-    # F-C06-STALE-ZERO: approx_err is not recomputed when the midpoint is exactly 0.  If init is (within the
-    # tolerance of) the first midpoint m0, the change measured at iteration 0 is below the tolerance but cannot stop
-    # the loop (iter > 0 is required); if the second midpoint is exactly 0 (m0 = -lower or m0 = -upper) that stale
-    # value stops the loop at iteration 1 at x = 0, far from the root.
-    lo, init, hi, tol = d['lo'], d['init'], d['hi'], d['tol']
-    m0 = (lo + hi) / 2
-    if m0 != 0 and abs(abs(m0 - init) / m0 * 100) < tol and (m0 == -lo or m0 == -hi) and peval(g, Fraction(0)) != 0:
-        return ('F-C06-STALE-ZERO the relative change is not recomputed when the midpoint is exactly 0: with init equal '
-                'to the first midpoint and the second midpoint 0 the stale value stops the loop at x = 0 and '
-                'NoConvergence is returned; e.g. x - 0.5 on [-3, 1], init -1')
     t0 = slope_tolerance(g, d)
     if t0 is not None and Fraction(d['tol']) > t0:
         return ('F-C06-LOOSE-TOL bisection stops on the relative step test (tolerance in percent) before the residual '
@@ -481,6 +471,8 @@ def sim_bisection(poly, lo, init, hi, tol, cap, mode, powfn):
             x = (lower + upper) / 2.0
             if x != 0.0:
                 err = fdiv(abs(x - old), x) * 100.0
+            else:
+                err = INF
             vl = sim_i_eval(poly, lower, powfn)
             test = vl * sim_i_eval(poly, x, powfn)
             exact = False
@@ -518,6 +510,8 @@ def sim_nrm(poly, x0, cap, tol, mode, powfn):
             it += 1
             if x != 0.0:
                 err = fdiv(abs(x - old), x) * 100.0
+            else:
+                err = INF
             if x == x and abs(x) != INF and sim_i_eval(poly, x, powfn) == 0.0:
                 err = 0.0
             if abs(err) < tol or it >= cap:
@@ -672,7 +666,7 @@ def gen(rng, tier):
             poly = enc_ipoly(ts, vs)
         return Case(mk_line(poly, lo, init, hi, tol, cap, mode), cls + '/' + ptype, None)
 
-    # fixed regression cases (the two repaired defects, the stale-error pattern, the loose tolerance)
+    # fixed regression cases (the repaired defects e42ded6 and 8dfb6bc [stale error at midpoint 0], the loose tolerance)
     fixed = [
         ([-4.0, 0.0, 1.0], 2.0, 3.0, 5.0, 1e-5, 100, 0, 'fixed'),
         ([-4.0, 0.0, 1.0], 0.0, 1.0, 2.0, 1e-5, 100, 0, 'fixed'),
